@@ -3,7 +3,7 @@ from __future__ import annotations
 
 import json
 
-from . import drv_conn, drv_fcs, drv_hdlc, drv_p1, drv_proto, drv_readers
+from . import drv_auto, drv_conn, drv_fcs, drv_hdlc, drv_p1, drv_proto, drv_readers
 
 CHECKS = {
     "C01": (drv_hdlc.run_c01, "model_checking"),
@@ -12,7 +12,9 @@ CHECKS = {
     "C04": (drv_p1.run_c04, "model_checking"),
     "C05": (drv_p1.run_c05, "model_checking"),
     "C06": (drv_hdlc.run_c06, "model_checking"),
+    "C12": (drv_auto.run_c12, "model_checking"),
     "C13": (drv_proto.run_c13, "model_checking"),
+    "C15": (drv_auto.run_c15, "model_checking"),
     "C14": (drv_readers.run_c14, "model_checking"),
     "C16": (drv_readers.run_c16, "model_checking"),
     "C17": (drv_conn.run_c17, "model_checking"),
@@ -27,7 +29,9 @@ REPLAYERS = {
     "C04": drv_p1.replay_c04,
     "C05": drv_p1.replay_c05,
     "C06": drv_hdlc.replay_c06,
+    "C12": drv_auto.replay_c12,
     "C13": drv_proto.replay_c13,
+    "C15": drv_auto.replay_c15,
     "C14": drv_readers.replay_c14,
     "C16": drv_readers.replay_c16,
     "C17": drv_conn.replay_c17,
